@@ -75,6 +75,12 @@ def _catalogue():
         "{{AA bb}}",
         "{{AA} {bb}} CC",
         "AA\xa0 bb",  # a no-break space is an ordinary character of a word
+        # words by Unicode case class (letters without case, cased non-letters, title-case letters) where they decide the von boundary
+        "AA \u2177 DD",
+        "AA bb \u4e2d DD",
+        "AA \u4e2d bb DD",
+        "AA \u01c5 CC",
+        "\xaa BB CC",
     ]
     return out
 
